@@ -79,11 +79,15 @@ class FakeSignal(object):
     SIGCHLD = 17
 
     def __init__(self):
-        self.handlers = {}
+        self.handlers = {}          # the parent process's dispositions
+        self.child_handlers = {}    # a forked child has its own copy: what it sets does not reach the parent
 
     def signal(self, sig, handler):
-        old = self.handlers.get(sig, 0)
-        self.handlers[sig] = handler
+        sim = core.cur()
+        in_child = sim is not None and sim.current is not None and sim.current.name.startswith("child")
+        table = self.child_handlers.setdefault(sim.current.name, dict(self.handlers)) if in_child else self.handlers
+        old = table.get(sig, 0)
+        table[sig] = handler
         return old
 
     def siginterrupt(self, sig, flag):
@@ -97,11 +101,21 @@ class ForkModel(object):
     """model of os.fork() for ForkingServer._accept_method: fork() is the first statement of that method, so the
     child is 'the same call started again on a copy of the server with dup-ed descriptors and fork() == 0'."""
 
-    def __init__(self, sim, real_os):
+    def __init__(self, sim, real_os, signals=None, st=None):
         self.sim = sim
         self.real = real_os
         self.children = []
         self.next_pid = 5000
+        # process table of the parent: children that have exited and have not been waited for are zombies; SIGCHLD is a
+        # pending *flag* (signals do not queue): several exits before the handler runs raise it once
+        self.zombies = []
+        self.reaped = []
+        self.signals = signals
+        self.st = st
+        self.sig_pending = False
+        self.sig_task = None
+        self.sig_delivered = 0
+        self.sig_coalesced = 0
 
     def __getattr__(self, name):
         return getattr(self.real, name)
@@ -130,6 +144,8 @@ class ForkModel(object):
                 child_server._accept_method(child_sock)
             except TaskExit:
                 pass
+            finally:
+                self._child_exited(pid)
         t = sim.spawn(child, _name="child%d" % pid, _host=cur.host)
         self.children.append((pid, t))
         return pid
@@ -137,7 +153,41 @@ class ForkModel(object):
     def _exit(self, code):
         raise TaskExit()
 
+    def _child_exited(self, pid):
+        if self.sim.killing or self.sim.dead:
+            return
+        self.zombies.append(pid)
+        if self.sig_pending:
+            self.sig_coalesced += 1
+            self.sim.count("fork:sigchld-coalesced")
+            return
+        self.sig_pending = True
+        if self.sig_task is None or self.sig_task.state == core.DONE:
+            self.sig_task = self.sim.spawn(self._deliver, _name="parent.signal-delivery", _host="srv")
+
+    def _deliver(self):
+        """the parent's main thread gets round to running its Python-level handler: at once, or after it returns from
+        whatever it was doing (seeded)"""
+        sim = self.sim
+        while self.sig_pending:
+            d = self.st.pick((0.0, 0.0, 0.001, 0.05, 0.5)) if self.st is not None else 0.0
+            if d:
+                sim.sleep(d)
+            self.sig_pending = False
+            self.sig_delivered += 1
+            h = self.signals.handlers.get(FakeSignal.SIGCHLD) if self.signals is not None else None
+            if callable(h):
+                h(FakeSignal.SIGCHLD, None)
+
     def waitpid(self, pid, flags):
+        if self.sim.current.locals.get("in_child") is not None and self.sim.current.name.startswith("child"):
+            raise ChildProcessError(10, "No child processes")
+        if self.zombies:
+            z = self.zombies.pop(0)
+            self.reaped.append(z)
+            return z, 0
+        if any(t.state != core.DONE for _, t in self.children):
+            return 0, 0
         raise ChildProcessError(10, "No child processes")
 
     WNOHANG = 1
